@@ -66,16 +66,19 @@ Definition aset (e : aenv) (x : var) (b : bool) : aenv := (x, b) :: e.
 Definition ajoin (vars : list var) (a b : aenv) : aenv :=
   map (fun x => (x, alook a x && alook b x)) vars.
 
-Fixpoint vars_of (p : list hop) : list var :=
-  match p with
-  | [] => []
-  | HFresh d :: r => d :: vars_of r
-  | HAlias d s :: r => d :: s :: vars_of r
-  | HGet d s :: r => d :: s :: vars_of r
-  | HMutate t :: r => t :: vars_of r
-  | HIf a b :: r => vars_of a ++ vars_of b ++ vars_of r
-  | HLoop b :: r => vars_of b ++ vars_of r
+Fixpoint vars_of_op (o : hop) : list var :=
+  match o with
+  | HFresh d => [d]
+  | HAlias d s => [d; s]
+  | HGet d s => [d; s]
+  | HMutate t => [t]
+  | HIf a b =>
+      (fix go (l : list hop) : list var := match l with [] => [] | x :: r => vars_of_op x ++ go r end) a
+      ++ (fix go (l : list hop) : list var := match l with [] => [] | x :: r => vars_of_op x ++ go r end) b
+  | HLoop b =>
+      (fix go (l : list hop) : list var := match l with [] => [] | x :: r => vars_of_op x ++ go r end) b
   end.
+Definition vars_of (p : list hop) : list var := flat_map vars_of_op p.
 
 (* abstract execution: (ok so far, abstract environment) *)
 Fixpoint aexec (fuel : nat) (vars : list var) (p : list hop) (e : aenv) : bool * aenv :=
@@ -112,13 +115,16 @@ Fixpoint aexec (fuel : nat) (vars : list var) (p : list hop) (e : aenv) : bool *
       end
   end.
 
-Fixpoint size (p : list hop) : nat :=
-  match p with
-  | [] => 1
-  | HIf a b :: r => 1 + size a + size b + size r
-  | HLoop b :: r => 1 + size b + size r
-  | _ :: r => 1 + size r
+Fixpoint size_op (o : hop) : nat :=
+  match o with
+  | HIf a b =>
+      2 + (fix go (l : list hop) : nat := match l with [] => 0 | x :: r => size_op x + go r end) a
+        + (fix go (l : list hop) : nat := match l with [] => 0 | x :: r => size_op x + go r end) b
+  | HLoop b =>
+      2 + (fix go (l : list hop) : nat := match l with [] => 0 | x :: r => size_op x + go r end) b
+  | _ => 1
   end.
+Definition size (p : list hop) : nat := 1 + fold_right (fun o n => size_op o + n) 0 p.
 
 (* the function's parameters are bound to input objects (abstract value false) *)
 Definition safe (params : list var) (p : list hop) : bool :=
